@@ -642,7 +642,7 @@ func WellOrdered(steps []string) (string, int) {
 			if role == "tmp" {
 				tmpBound, dirty = false, false
 			} else {
-				pending = false
+				return "remove-final", i // the final name is never unlinked by a publisher: rename replaces it
 			}
 		case "ok":
 			if pending {
